@@ -190,7 +190,22 @@ class Interp:
         if isinstance(st, ast.Expr):
             if isinstance(st.value, ast.Constant):
                 return
-            self.ev(st.value, env)
+            try:
+                self.ev(st.value, env)
+            except Unmodelled:
+                # an expression statement whose value is discarded can influence the generated text only through a
+                # local it mutates; calls on things that are not locals (logger.debug, warnings.warn ...) are skipped
+                root = st.value.func if isinstance(st.value, ast.Call) else None
+                while isinstance(root, (ast.Attribute, ast.Subscript, ast.Call)):
+                    root = root.value if not isinstance(root, ast.Call) else root.func
+                if isinstance(root, ast.Name) and root.id not in env:
+                    return
+                raise
+        elif isinstance(st, ast.Assert):
+            return
+        elif isinstance(st, ast.AnnAssign):
+            if st.value is not None:
+                self.assign(st.target, self.ev(st.value, env), env)
         elif isinstance(st, ast.Assign):
             v = self.ev(st.value, env)
             for t in st.targets:
@@ -270,6 +285,8 @@ class Interp:
                 return ('func', e.id)
             if e.id in ('None', 'True', 'False'):
                 return {'None': None, 'True': True, 'False': False}[e.id]
+            if e.id in ('str', 'int', 'len'):
+                return ('builtin', e.id)
             raise Unmodelled(f'unknown name {e.id}')
         if isinstance(e, ast.JoinedStr):
             out = []
@@ -284,10 +301,16 @@ class Interp:
                         raise Unmodelled('f-string format spec')
                     out.append(self.tostr(x))
             return ''.join(out)
-        if isinstance(e, ast.Tuple):
-            return tuple(self.ev(x, env) for x in e.elts)
-        if isinstance(e, ast.List):
-            return [self.ev(x, env) for x in e.elts]
+        if isinstance(e, (ast.Tuple, ast.List)):
+            out = []
+            for x in e.elts:
+                if isinstance(x, ast.Starred):
+                    out.extend(self.ev(x.value, env))
+                else:
+                    out.append(self.ev(x, env))
+            return tuple(out) if isinstance(e, ast.Tuple) else out
+        if isinstance(e, ast.GeneratorExp):
+            return self.ev(ast.copy_location(ast.ListComp(elt=e.elt, generators=e.generators), e), env)
         if isinstance(e, ast.Dict):
             return {self.ev(k, env): self.ev(v, env) for k, v in zip(e.keys, e.values)}
         if isinstance(e, ast.BinOp):
@@ -351,7 +374,7 @@ class Interp:
         if isinstance(e, ast.Call):
             return self.callexpr(e, env)
         if isinstance(e, ast.ListComp):
-            if len(e.generators) != 1 or e.generators[0].ifs:
+            if len(e.generators) != 1:
                 raise Unmodelled('list comprehension shape')
             g = e.generators[0]
             it = self.ev(g.iter, env)
@@ -359,7 +382,8 @@ class Interp:
             for x in it:
                 env2 = dict(env)
                 self.assign(g.target, x, env2)
-                out.append(self.ev(e.elt, env2))
+                if all(self.truth(self.ev(c, env2), c) for c in g.ifs):
+                    out.append(self.ev(e.elt, env2))
             return out
         raise Unmodelled(f'expression {type(e).__name__} at line {getattr(e, "lineno", "?")}')
 
@@ -450,6 +474,25 @@ class Interp:
                 return tuple(args[0])
             if n == 'zip':
                 return list(zip(*args))
+            if n == 'map' and len(args) == 2:
+                fn_ = args[0]
+                if fn_ == ('builtin', 'str') or (isinstance(e.args[0], ast.Name) and e.args[0].id == 'str'):
+                    return [self.tostr(x) for x in args[1]]
+                if isinstance(fn_, tuple) and fn_ and fn_[0] == 'func':
+                    return [self.call(fn_[1], x) for x in args[1]]
+                raise Unmodelled('map() with an unmodelled function')
+            if n == 'reversed':
+                return list(args[0])[::-1]
+            if n == 'enumerate':
+                return list(enumerate(*args))
+            if n == 'sorted' and len(args) == 1 and not kwargs:
+                return sorted(args[0])
+            if n in ('int', 'bool') and len(args) == 1 and isinstance(args[0], (int, bool)):
+                return {'int': int, 'bool': bool}[n](args[0])
+            if n == 'repr' and len(args) == 1 and isinstance(args[0], (str, int)):
+                return repr(args[0])
+            if n == 'isinstance':
+                raise Unmodelled('isinstance in a generator')
             if n == 'range' and all(isinstance(a, int) for a in args):
                 return list(range(*args))
             if n == 'Path':
@@ -479,10 +522,19 @@ class Interp:
                     return PathV('ABS', recv.parts) if not recv.root or recv.root == 'ABS' else recv
                 if m == 'as_posix':
                     return recv.as_posix()
+                if m == 'joinpath':
+                    out = recv
+                    for a_ in args:
+                        out = out.join(a_)
+                    return out
+                if m == '__str__':
+                    return recv.as_posix()
                 raise Unmodelled(f'Path.{m}')
             if isinstance(recv, str):
                 if m in ('startswith', 'endswith', 'join', 'splitlines', 'format', 'lstrip', 'rstrip', 'strip',
-                         'upper', 'lower', 'replace', 'split'):
+                         'upper', 'lower', 'replace', 'split', 'removesuffix', 'removeprefix', 'ljust', 'rjust',
+                         'center', 'zfill', 'count', 'find', 'index', 'title', 'capitalize', 'expandtabs', 'rsplit',
+                         'partition', 'rpartition', 'isdigit'):
                     if m == 'join':
                         return recv.join(self.tostr(x) for x in args[0])
                     return getattr(recv, m)(*args, **kwargs)
